@@ -51,6 +51,9 @@ T = {
  "C09": ("fault_enumeration", "fault enumeration: graceful stop at every quiescent point and kill at every enumerated SQL / commit / transport boundary of sending and receiving, on two real endpoints with file journals; oracles: counters of a new connection object on the journal vs the live object, end-to-end id comparison across incarnations, per-identity MsgSeqNum reuse from the transport taps, ResendRequests after clean restarts", "§4 C09",
          "Generated histories (traffic both ways, partial delivery, link breaks with frames in flight, gap fills, SequenceReset-Reset, reset_seq_num, time) are run once to enumerate quiescent points and kill points and then re-run per point: a second Journaler + new connection object must report the live counters at every quiescent point; either side is stopped (with/without Logout) or killed (in-process death: Kill raised at the boundary, nothing more executes, SQLite connection and cursor closed without commit, socket closed), a new object takes over on the same journal file, reconnects and logs on; then no loss / duplication (operation in flight stays open), no outbound number reused for a different message, no ResendRequest after a clean restart.",
          "process death not power loss; in-process death is validated against real os._exit children in C08; renumbering by agreement (reset_seq_num, application SequenceReset) is not a kill step"),
+ "C15": ("exploration", "generated instances and single faults from an independent dictionary reader, judged by the library's own verdict (accept / FIXMessageError / anything else), plus verdict comparison under permuted declaration order", "§4 C15",
+         "For every message type of both XML dictionaries: valid instances at three member densities (groups 1-3 items, nested 4 deep, MUST-ACCEPT values, with/without header) must validate; eleven classes of single fault at positions spread over all nesting depths must raise FIXMessageError and nothing else; a fixed battery of verdicts must be identical after permuting the order in which components and messages are declared.",
+         "the independent reader only generates; members required inside optional components are always present; bad values are blatant (near-misses are C19's)"),
  "C02": ("exploration", "independent strict framer as oracle on encoder output and on every tapped transport write", "§4 C02",
          "Every byte string the encoder returns for generated messages (incl. non-ASCII) and every write() of a real connection during random session histories is parsed by an independent strict FIX framer (BodyLength/CheckSum recomputed on bytes).",
          "vf.ref.fixwire is the definition of well-formed; empty values tolerated"),
